@@ -584,7 +584,11 @@ func checkC15(c *Ctx, w *World) {
 	}
 	okMon := len(gss) > 0 && len(nts) > 0 && len(wfs) > 0 && len(loopsOf(g.monitor)) == 1
 	for _, wf := range wfs {
-		if !inLoop(wf) || wf.Call.Args[1] != ssa.Value(g.monitor.Params[1]) || !ownConn(wf.Call.Args[0]) {
+		if len(g.monitor.Params) < 2 || len(wf.Call.Args) < 3 || !inLoop(wf) || wf.Call.Args[1] != ssa.Value(g.monitor.Params[1]) || !ownConn(wf.Call.Args[0]) {
+			okMon = false
+			continue
+		}
+		if false {
 			okMon = false
 		}
 		for _, o := range origins(wf.Call.Args[2]) {
@@ -596,7 +600,7 @@ func checkC15(c *Ctx, w *World) {
 			// notified between the read and the wait, on every path
 			notified := false
 			for _, nt := range nts {
-				if nt.Call.Args[1] == ssa.Value(gs) && nt.Call.Args[0] == ssa.Value(g.monitor.Params[0]) && dominatesInstr(gs, nt) && !reachesAvoiding(gs, wf, nt) {
+				if len(nt.Call.Args) > 1 && nt.Call.Args[1] == ssa.Value(gs) && nt.Call.Args[0] == ssa.Value(g.monitor.Params[0]) && dominatesInstr(gs, nt) && !reachesAvoiding(gs, wf, nt) {
 					notified = true
 				}
 			}
@@ -612,6 +616,9 @@ func checkC15(c *Ctx, w *World) {
 		eachInstr(g.notify, func(in ssa.Instruction) {
 			call, ok := in.(*ssa.Call)
 			if !ok || !call.Call.IsInvoke() || call.Call.Method.Name() != "SetEndpointAvailability" || !rl.onEveryIteration(call) || !rl.val(call.Call.Value) {
+				return
+			}
+			if len(g.notify.Params) < 2 || len(call.Call.Args) < 2 {
 				return
 			}
 			if _, isEq := eqConstOperand(call.Call.Args[1], g.Ready, isVal(g.notify.Params[1])); !isEq {
